@@ -437,6 +437,48 @@ fn compare_selectors_shared_parse(public: &Files, school: &Files, thorough: bool
     }
 }
 
+/// One context value that gets a country's calendars attached, then the next country's, and so on (an application
+/// that follows a user across borders, or re-uses one configured context): after each attachment `PH` / `SH` and
+/// the attached calendars themselves must be the new country's, whatever was attached before -- in particular
+/// nothing of a previous country's school calendar may survive in a country that has none.
+fn compare_reattached_calendars(name: &str, public: &Files, school: &Files, thorough: bool, out: &mut Out) {
+    let empty = BTreeSet::new();
+    let ph = OpeningHours::parse("PH").expect("PH parses");
+    let sh = OpeningHours::parse("SH").expect("SH parses");
+    let years = if thorough { 1990..=2085 } else { 2023..=2026 };
+    let mut ctx = Context::default();
+    let mut prev: Option<Country> = None;
+    // the order of the schedule, then once more backwards: every country follows two different ones
+    let fwd = order(name);
+    for c in fwd.iter().chain(fwd.iter().rev()) {
+        ctx = ctx.with_holidays(c.holidays());
+        let (fp, fs) = (public.get(c.iso_code()).unwrap_or(&empty), school.get(c.iso_code()).unwrap_or(&empty));
+        out.checks += 2;
+        if !ctx.holidays.get_public().iter().eq(fp.iter().copied()) || !ctx.holidays.get_school().iter().eq(fs.iter().copied()) {
+            out.bad(format!("{}: calendars of a context that had {:?} attached before differ from the data files", c.iso_code(), prev.map(|p| p.iso_code())));
+            return;
+        }
+        let mut days: BTreeSet<NaiveDate> = BTreeSet::new();
+        for code in [Some(*c), prev].into_iter().flatten().map(|c| c.iso_code()) {
+            for f in [public, school] {
+                days.extend(f.get(code).unwrap_or(&empty).iter().filter(|d| years.contains(&d.year())).copied());
+            }
+        }
+        let (oph, osh) = (ph.clone().with_context(ctx.clone()), sh.clone().with_context(ctx.clone()));
+        for d in days {
+            for (expr, oh, file) in [("PH", &oph, fp), ("SH", &osh, fs)] {
+                out.checks += 1;
+                let open = oh.state(d.and_hms_opt(12, 0, 0).unwrap()) == RuleKind::Open;
+                if open != file.contains(&d) {
+                    out.bad(format!("{}: `{expr}` under a context that had {:?} attached before is {} on {d}, file says listed={}", c.iso_code(), prev.map(|p| p.iso_code()), if open { "open" } else { "closed" }, file.contains(&d)));
+                    return;
+                }
+            }
+        }
+        prev = Some(*c);
+    }
+}
+
 fn order(name: &str) -> Vec<Country> {
     let mut v: Vec<Country> = Country::ALL.to_vec();
     v.sort_by_key(|c| c.iso_code());
@@ -493,6 +535,7 @@ fn schedule(name: &str, public: &Files, school: &Files, thorough: bool) -> (u64,
             }
             compare_codes(public, school, &mut out);
             compare_selectors_shared_parse(public, school, thorough, &mut out);
+            compare_reattached_calendars(name, public, school, thorough, &mut out);
             if name == "S1_first_country_first" {
                 compare_repeats_and_coords(public, school, &mut out);
             }
